@@ -270,6 +270,12 @@ def executor_method(engine, st, fr, ex, name, args, kwargs, star, starkw, node):
         engine.touch_future(st, z3.IntVal(fid))
         st.trace[-1] = _with(ev, ret=f.t)
         yield st, f
+    elif name.startswith("with_") or name in ("bind", "flat_bind"):
+        # chaining on an executor of unknown class: a new object (an executor for with_*, a bound callable for bind / flat_bind)
+        r = fresh("%s_ret" % name, Val)
+        st.assume(z3.Not(Val.is_none(r)))
+        st.trace[-1] = _with(ev, ret=r)
+        yield st, Z(r, "executor" if name.startswith("with_") else "any")
     else:
         st.trace[-1] = _with(ev, ret=NONE)
         yield st, None
